@@ -90,14 +90,41 @@ class Gen:
             tags.add("K02_py_triple_in_string")
         return q + body + q, tags
 
+    def raw_string_lit(self):
+        """Rust raw string: no escapes; the body may hold quotes (below the hash level), backslashes and
+        comment markers, all of which are plain text"""
+        rng = self.rng
+        lvl = rng.choice([0, 1, 1, 2])
+        body = ""
+        for _ in range(rng.randint(0, 5)):
+            r = rng.random()
+            if r < 0.3 and lvl > 0:
+                body += rng.choice(['"', '" ', '"x', "'"])
+            elif r < 0.65:
+                body += rng.choice(["/*", "*/", "//", " /* x", "\\", "C:\\", "/**/"])
+            else:
+                body += rng.choice(WORDS)
+        if lvl == 0:
+            body = body.replace('"', "")
+        body = body.replace('"' + "#" * lvl, "") if lvl else body
+        if rng.random() < 0.3:
+            body += "\\"          # a trailing backslash is not an escape in a raw string
+        return "r" + "#" * lvl + '"' + body + '"' + "#" * lvl
+
     def code_line(self):
         """code-only line: words and string literals, separated by spaces; returns (text, tags)"""
         rng = self.rng
+        is_rust = "rs" in getattr(self.sy, "exts", [])
         for _ in range(100):
-            parts, tags = [], set()
+            parts, tags, raws = [], set(), {}
             n = rng.randint(1, 5)
             for i in range(n):
-                if rng.random() < 0.3:
+                r = rng.random()
+                if is_rust and r < 0.12:
+                    key = "RAWLIT%d" % len(raws)
+                    raws[key] = self.raw_string_lit()
+                    parts.append(key)
+                elif r < 0.3:
                     s, t = self.string_lit()
                     parts.append(s)
                     tags |= t
@@ -106,6 +133,9 @@ class Gen:
             text = rng.choice(INDENT) + " ".join(parts)
             # top-level text (string bodies blanked) must be marker-free and must not start with a prefix
             top = re.sub(r'"(?:\\.|[^"\\])*"|\'(?:\\.|[^\'\\])*\'', "S", text)
+            for key, lit in raws.items():
+                text = text.replace(key, lit)
+                top = top.replace(key, "S")
             if not self.top_clean(top.replace("S", "")):
                 continue
             if '""' + '"' in text or "''" + "'" in text:
